@@ -260,6 +260,12 @@ def model_case95(case):
         return [95, [2, wire_cfg(case['cfg']), len(rdb_bytes()), case['fs']]]
     if case['kind'] == 'budget':
         return [95, [3, wire_cfg(case['cfg'])]]
+    if case['kind'] == 'session' and 'cfgs' in case:       # several store objects in one history
+        from fixtures.s3fake import LISTING_EMPTY, LISTING_FULL
+        return [97, [[wire_cfg(c) for c in case['cfgs']],
+                     [[o['store'], [o['bucket'], o['state'], pls[o['payload']]['segs'],
+                                    len(LISTING_FULL) if o['state'] == 0 else len(LISTING_EMPTY), o['fs'], o['fsb']]]
+                      for o in case['ops']]]]
     if case['kind'] == 'session':
         from fixtures.s3fake import LISTING_EMPTY, LISTING_FULL
         return [92, [wire_cfg(case['cfg']),
@@ -387,19 +393,29 @@ def impl_session(case, read_timeout):
     fake.max_wait = read_timeout + 2.0
     fake.arm([], [], 'full', pls[0]['data'])
     out = []
+    cfgs = case.get('cfgs') or [case['cfg']]
     try:
-        store = S3ChunkStore(fake.url, timeout=(2, read_timeout), **retries_kw(case['cfg']))
+        objs = [S3ChunkStore(fake.url, timeout=(2, read_timeout), **retries_kw(c)) for c in cfgs]
     except Exception as e:
         return [(classify_exc(e), '', [], None)]
-    norm = {n.replace('_', '-'): i for i, n in enumerate(BUCKET_NAMES)}
+    names = BUCKET_NAMES
+    if 'cfgs' in case:
+        # histories over several store objects get bucket names of their own (and fresh ones for the confirmation re-run):
+        # a cache that outlives its store object cannot leak into - or out of - such a history, so a reported history
+        # fails on its own in a fresh process too
+        # the second name extends the first (a cache looked up by prefix / substring would let one vouch for the other)
+        base = 'm%s%s' % (case.get('serial', 0), 'r' if read_timeout > 1.0 else '')
+        names = (base + '_0', base + '_0x', base + '_1')
+    norm = {n.replace('_', '-'): i for i, n in enumerate(names)}
     for o in case['ops']:
+        store = objs[o.get('store', 0)]
         p = pls[o['payload']]
         a = p['array']
         slices = tuple(slice(0, n) for n in a.shape)
         fake.arm([action(s) for s in o['fs']], [action(s) for s in o['fsb']], ('full', 'empty', 'missing')[o['state']],
                  p['data'])
         try:
-            c = store.get_chunk(BUCKET_NAMES[o['bucket']] + '/arr', slices, a.dtype)
+            c = store.get_chunk(names[o['bucket']] + '/arr', slices, a.dtype)
             ok = isinstance(c, np.ndarray) and c.dtype == a.dtype and c.shape == a.shape and np.array_equal(c, a)
             cls = OK if ok else 7
         except Exception as e:
@@ -427,9 +443,15 @@ def session_signature(case, k, mout, impl_cls, want_cls, what):
     same = [j for j in range(k) if case['ops'][j]['bucket'] == o['bucket']]
     coarse = {OK: 'ok', NOTFOUND: 'missing-chunk'}
     before = sorted({coarse.get(mout[j][4][0], 'failed') for j in same})
-    return 'kind=session;call=%s;faults=%s;listing=%s;bucket=%s;evidence=%d;same_bucket_before=%s;other_buckets_before=%d;what=%s;impl=%s;want=%s' % (
+    multi = ''
+    if 'cfgs' in case:       # several store objects: what ANOTHER object saw in this bucket before
+        other = sorted({coarse.get(mout[j][4][0], 'failed') for j in same if case['ops'][j]['store'] != o['store']})
+        same = [j for j in same if case['ops'][j]['store'] == o['store']]
+        before = sorted({coarse.get(mout[j][4][0], 'failed') for j in same})
+        multi = ';stores=%d;same_bucket_on_another_store_before=%s' % (len(case['cfgs']), '+'.join(other) or 'none')
+    return 'kind=session;call=%s;faults=%s;listing=%s;bucket=%s;evidence=%d;same_bucket_before=%s;other_buckets_before=%d%s;what=%s;impl=%s;want=%s' % (
         'first' if k == 0 else 'later', '+'.join(kinds) or 'none', listing, ('full', 'empty', 'missing')[o['state']],
-        int(mout[k][5]), '+'.join(before) or 'none', int(len(same) < k), what,
+        int(mout[k][5]), '+'.join(before) or 'none', int(len(same) < k), multi, what,
         CLASS_NAMES.get(impl_cls, impl_cls), CLASS_NAMES.get(want_cls, want_cls))
 
 
@@ -437,7 +459,7 @@ def compare_session(ctx, case, mout, read_timeout=0.5, confirm=True):
     """Per call: class vs spec (property) and vs model (tie), order and number of requests, the bucket that is listed,
     the verified-bucket cache after the call.  Only the first disagreeing call of a history is reported (later ones may
     merely follow from it); the case kept for the replay is the history up to and including that call."""
-    res = impl_session(case, read_timeout)
+    res = impl_pre(case, read_timeout, confirm)
     stale = bool(_state.get('stale'))
     first = {}                      # 'property' / 'tie' -> (call, what, impl class, wanted class): first call only
     for k, r in enumerate(res):
@@ -448,7 +470,7 @@ def compare_session(ctx, case, mout, read_timeout=0.5, confirm=True):
         want_req = 'O' * mo + 'B' * mb
         listed = {bucket_of_path(e[2]) for e in log if e[0] == 'B'}
         asked = {bucket_of_path(e[2]) for e in log if e[0] == 'O'}
-        if confirm and k < len(case['ops']):
+        if confirm and k < len(case['ops']) and 'cfgs' not in case:
             o = case['ops'][k]
             idx = '_'.join('%05d' % 0 for _ in env()[1][o['payload']]['array'].shape)
             check_paths(ctx, case, log, ['%s/arr/%s.npy' % (BUCKET_NAMES[o['bucket']], idx)])
@@ -525,7 +547,7 @@ def compare(ctx, case, mout, read_timeout=0.5, confirm=True):
     if kind == 'chunk':
         case['_consumed_b'] = mout[2]
     if kind == 'rdb':
-        icls, ireq, _ = impl_rdb(case, read_timeout)
+        icls, ireq, _ = impl_pre(case, read_timeout, confirm)
         mcls, mn, scls, sn = mout[0][0], mout[1], mout[2][0], mout[3]
         scls = 0 if scls == 0 else 1       # every ChunkStoreError becomes DataSourceNotFound
         want_req_m, want_req_s = 'O' * mn, 'O' * sn
@@ -537,7 +559,7 @@ def compare(ctx, case, mout, read_timeout=0.5, confirm=True):
         if icls != mcls or ireq != want_req_m:
             problems.append(('tie', 'result' if icls != mcls else 'requests', icls, mcls))
     elif kind == 'chunk':
-        icls, ireq, clog = impl_chunk(case, read_timeout)
+        icls, ireq, clog = impl_pre(case, read_timeout, confirm)
         if confirm:
             idx = '_'.join('%05d' % 0 for _ in env()[1][case['payload']]['array'].shape)
             check_paths(ctx, case, clog, ['bkt/arr/%s.npy' % idx])
@@ -824,7 +846,40 @@ def session_cases(ctx):
             fsb = [rand_sym(pls[pi], listing=True) for _ in range(rng.choice((0, 0, 0, 1, 2, 3)))]
             ops.append(dict(bucket=b, state=state[b], payload=pi, fs=fs, fsb=fsb))
         cases.append(dict(kind='session', cfg=cfg, ops=ops))
-    return cases
+    # (c) SEVERAL store objects in one history (evidence is per bucket AND per store object): all histories of 2 calls
+    #     (the first on object 0) over 5 call shapes x 2 buckets x 2 objects, random ones of 3-6 calls over 3 objects
+    #     constructed with different `retries` arguments
+    def shapes():
+        return [dict(state=0, fs=[[0, 404]], fsb=[]), dict(state=1, fs=[[0, 404]], fsb=[]),
+                dict(state=2, fs=[[0, 404]], fsb=[]), dict(state=rng.choice((0, 1)), fs=[], fsb=[]),
+                dict(state=0, fs=[[0, 404]], fsb=[[0, 503], [0, 503]])]
+    two = [dict(o, bucket=b, store=k, payload=rng.randrange(len(pls))) for k in (0, 1) for b in (0, 1) for o in shapes()]
+    for o1 in two:
+        if o1['store'] != 0:
+            continue
+        for o2 in two:
+            cases.append(dict(kind='session', cfg=list(cfg1), cfgs=[list(cfg1), list(cfg1)], ops=[dict(o1), dict(o2)]))
+    for _ in range(ctx.scale(70, 1500)):
+        cfgs = [list(cfg1), list(rng.choice(USER_FORMS)), [10, 1, rng.choice((0, 1, 2)), rng.choice((0, 1, 2)), G]]
+        state = [rng.choice((0, 0, 1, 2)) for _ in BUCKET_NAMES]
+        ops = []
+        for _ in range(rng.randint(3, 6)):
+            b = rng.choice((0, 0, 1))
+            if rng.random() < 0.25:
+                state[b] = rng.choice((0, 1, 2))
+            pi = rng.randrange(len(pls))
+            fs = [rand_sym(pls[pi])] if rng.random() < 0.25 else []
+            if rng.random() < 0.75:
+                fs.append([0, 404])
+            fsb = [rand_sym(pls[pi], listing=True) for _ in range(rng.choice((0, 0, 0, 1, 2)))]
+            ops.append(dict(bucket=b, store=rng.randrange(3), state=state[b], payload=pi, fs=fs, fsb=fsb))
+        cases.append(dict(kind='session', cfg=cfgs[0], cfgs=cfgs, ops=ops))
+    # histories over several store objects first: a cache that outlives its store object (class / module level) makes
+    # every LATER case of the same process start dirty; the first reports should be histories that fail on their own
+    multi = [c for c in cases if 'cfgs' in c]
+    for j, c in enumerate(multi):
+        c['serial'] = j
+    return multi + [c for c in cases if 'cfgs' not in c]
 
 
 # ---------------------------------------------------------------------------------------------------
@@ -1247,7 +1302,7 @@ def impl_site(case, read_timeout):
 def compare_site(ctx, case, mout, read_timeout=0.5, confirm=True):
     import hashlib
     _, pls = env()
-    icls, log = impl_site(case, read_timeout)
+    icls, log = impl_pre(case, read_timeout, confirm)
     site = case['site']
     names = dict(CLASS_NAMES)
     names[10] = 'False'
@@ -1295,6 +1350,16 @@ def compare_site(ctx, case, mout, read_timeout=0.5, confirm=True):
             problems.append(('property', 'listing_or_method', icls, scls))
         if mcls != scls and guarded and not problems:
             problems.append(('property', 'model_vs_spec', mcls, scls))
+        auto = case.get('_auto')
+        if auto is not None and not _state.get('stale'):
+            # the counting automaton of requests that are not streamed (theorem: = the model of the loop, for all inputs)
+            acls, an = (OK if auto[1][0][0] == 0 else auto[1][0][0]), auto[1][1]
+            if site == 'complete':
+                acls = OK if auto[1][0][0] == 0 else (10 if auto[1][0][0] in (NOTFOUND, GLITCH) else auto[1][0][0])
+            if (icls, len(log)) != (acls, an) and not problems:
+                problems.append(('tie', 'unstreamed_automaton', icls, acls))
+            if icls == OK and site == 'complete' and auto[1][0] != [0, len(pls[case['payload']]['data'])]:
+                problems.append(('property', 'answer_without_its_whole_body_accepted', icls, acls))
     if problems and confirm and read_timeout < 2.0:
         return compare_site(ctx, case, mout, read_timeout=2.5, confirm=False)
     ctx.traces_validated += 1
@@ -1360,6 +1425,24 @@ def site_cases(ctx):
             else:
                 fs.append([rng.choice((1, 2)), rng.choice(offsets(pls[pi])[:-1])])
         cases.append(dict(kind='site', site=site, cfg=cfg, payload=pi, fs=fs, empty=empty))
+    # answers WITH a body to requests that are not streamed (theorem C09_unstreamed_request: the counting automaton):
+    # all scripts of length <= 2 over {503, reset before the header, close before the header, body cut early / late,
+    # body reset, 404, 403} + the shapes in which what the adapter retried is forgotten, for `put` and `complete`
+    for site in ('put', 'complete'):
+        for read, status in ((1, 1), (0, 1), (2, 1), (1, 0)) if not thorough else tuple(itertools.product((0, 1, 2), repeat=2)):
+            pi = rng.choice((0, 2, 3))
+            ks = offsets(pls[pi])
+            bs = [[0, 503], [4, 0], [4, 2], [1, ks[0]], [1, ks[-1]], [2, ks[2]], [0, 404], [0, 403]]
+            scripts = [list(x) for n in (1, 2) for x in itertools.product(bs, repeat=n)]
+            cut = [1, rng.choice(ks)]
+            scripts += [[[4, 0], cut, [4, 0]], [[0, 503], cut, [0, 503]], [[0, 503], cut, [0, 503], cut, [0, 503]],
+                        [cut, [4, 0], cut], [[4, 0], [0, 503], cut, [4, 0], [0, 503]], [cut, cut, [0, 503]],
+                        [[0, 503], [4, 2], cut, [0, 502], [0, 403]]]
+            for fs in scripts:
+                if len(fs) == 2 and not thorough and rng.random() < 0.4:
+                    continue
+                cases.append(dict(kind='site', site=site, cfg=[10, 1, read, status, G], payload=pi,
+                                  fs=[list(x) for x in fs], empty=False))
     return cases
 
 
@@ -1627,6 +1710,11 @@ def safe_model(ctx, cases):
     if have:
         for i, o in zip(have, ctx.model([mcs[i] for i in have])):
             out[i] = o
+    body = [c for c in cases if c['kind'] == 'site' and c['site'] != 'mark' and not c.get('empty', True)]
+    if body and '96' not in left and ctx.model_ok and not _state.get('stale'):
+        _, pls = env()
+        for c, o in zip(body, ctx.model([[96, [wire_cfg(c['cfg']), len(pls[c['payload']]['data']), c['fs']]] for c in body])):
+            c['_auto'] = o
     for i, c in enumerate(cases):
         if out[i] is None:
             out[i] = py_mout(c)
@@ -1652,6 +1740,136 @@ def safe_model(ctx, cases):
     return out
 
 
+# ---------------------------------------------------------------------------------------------------
+# Worker processes for the implementation runs.  A case of kind chunk / rdb / site / session is a pure function of the case
+# (fresh store object(s), its own fault script): K fresh interpreters, each with a loopback endpoint of its own, run them
+# side by side (client and fake server of ONE process share a GIL, and the stall symbols are pure waiting).  The parent
+# still does every comparison; a disagreement is re-run IN the parent with the generous timeout before it is reported.
+# Token kinds stay in the parent (scripted clock, exception texts).
+
+WORKER_KINDS = ('chunk', 'rdb', 'site', 'session')
+
+
+def impl_any(case, read_timeout):
+    kind = case['kind']
+    if kind == 'chunk':
+        return impl_chunk(case, read_timeout)
+    if kind == 'rdb':
+        return impl_rdb(case, read_timeout)
+    if kind == 'site':
+        return impl_site(case, read_timeout)
+    if kind == 'session':
+        return impl_session(case, read_timeout)
+    raise ValueError(kind)
+
+
+def impl_pre(case, read_timeout, confirm):
+    """The result a worker computed for this case (first look only), else a run in this process."""
+    pre = case.pop('_pre', None)
+    if pre is not None and confirm and read_timeout == 0.5:
+        return pre
+    return impl_any(case, read_timeout)
+
+
+def worker_main():
+    import sys
+    out = os.fdopen(os.dup(1), 'w')
+    os.dup2(2, 1)                      # nothing but results on the result pipe
+    quiet()
+    env()
+    rdb_bytes()
+    for line in sys.stdin:
+        try:
+            r = impl_any(json.loads(line), 0.5)
+        except Exception as e:         # the parent runs the case itself
+            r = None
+        out.write(json.dumps(r) + '\n')
+        out.flush()
+    out.write(json.dumps({'slept': len(_state['nosleep'].slept)}) + '\n')
+    out.flush()
+
+
+class _Workers:
+    def __init__(self, n):
+        import subprocess
+        import sys
+        self.procs = [subprocess.Popen([sys.executable, '-c', 'from props import c09; c09.worker_main()'],
+                                       stdin=subprocess.PIPE, stdout=subprocess.PIPE, text=True, bufsize=1)
+                      for _ in range(n)]
+        self.dead = set()
+        self.feeders = []
+        self.slept = 0
+
+    def submit(self, cases):
+        """Hands the cases out round-robin; returns for each case the worker that has it (the results of one worker come back
+        in the order of submission)."""
+        import threading
+        n = len(self.procs)
+        lines = [[] for _ in range(n)]
+        owner = []
+        for j, c in enumerate(cases):
+            w = j % n
+            owner.append(w)
+            lines[w].append(json.dumps({k: v for k, v in c.items() if not k.startswith('_')}) + '\n')
+
+        def feed(w):
+            try:
+                for ln in lines[w]:
+                    self.procs[w].stdin.write(ln)
+                self.procs[w].stdin.flush()
+            except Exception:
+                self.dead.add(w)
+        for w in range(n):
+            t = threading.Thread(target=feed, args=(w,), daemon=True)
+            t.start()
+            self.feeders.append(t)
+        return owner
+
+    def result(self, w):
+        if w in self.dead:
+            return None
+        try:
+            line = self.procs[w].stdout.readline()
+            if not line:
+                raise EOFError
+            return json.loads(line)
+        except Exception:
+            self.dead.add(w)           # everything still owed by this worker is run in the parent
+            return None
+
+    def close(self):
+        for t in self.feeders:
+            t.join(5)
+        for w, p in enumerate(self.procs):
+            try:
+                p.stdin.close()
+                if w not in self.dead:
+                    last = p.stdout.readline()
+                    self.slept += json.loads(last).get('slept', 0) if last else 0
+                p.wait(10)
+            except Exception:
+                p.kill()
+
+
+def farm_out(ctx, cases):
+    """Attaches to every farmable case the result of a worker (`_pre`); yields nothing when there are no workers."""
+    pool = _state.get('workers')
+    todo = [c for c in cases if c['kind'] in WORKER_KINDS]
+    if pool is None or len(todo) < 8:
+        return lambda c: None
+    owner = {id(c): w for c, w in zip(todo, pool.submit(todo))}
+
+    def fetch(c):
+        w = owner.get(id(c))
+        if w is None:
+            return
+        r = pool.result(w)
+        if r is not None:
+            c['_pre'] = r
+            ctx.count('impl_runs_in_worker_processes')
+    return fetch
+
+
 def canon(case):
     return json.dumps({k: v for k, v in case.items() if k not in ('token_str', 'url') and not k.startswith('_')},
                       sort_keys=True, default=str)
@@ -1659,9 +1877,11 @@ def canon(case):
 
 def run_cases(ctx, cases):
     mouts = safe_model(ctx, cases) if (ctx.model_ok or _state.get('stale')) else None
+    fetch = farm_out(ctx, [c for i, c in enumerate(cases) if mouts is not None and mouts[i] is not None])
     for i, c in enumerate(cases):
         if mouts is None or mouts[i] is None:
             continue
+        fetch(c)
         compare(ctx, c, mouts[i])
         if c['kind'] == 'session':
             ctx.note_case(canon(c), nontrivial=any(o['fs'] for o in c['ops']),
@@ -1669,10 +1889,16 @@ def run_cases(ctx, cases):
             ctx.count('kind=session')
             ctx.count('session_calls', len(c['ops']))
             ctx.count('session_len=%d' % len(c['ops']))
+            ctx.count('session_store_objects=%d' % len(c.get('cfgs', [0])))
             for k, o in enumerate(c['ops']):
+                if 'cfgs' in c and o['fs'][-1:] == [[0, 404]] and not mouts[i][k][5] and any(
+                        c['ops'][j]['bucket'] == o['bucket'] and c['ops'][j]['store'] != o['store']
+                        and mouts[i][j][4][0] == NOTFOUND for j in range(k)):
+                    ctx.count('session_404_in_bucket_that_only_another_store_object_verified')
                 ctx.count('session_result=' + CLASS_NAMES.get(mouts[i][k][4][0], '?'))
                 if k and mouts[i][k][4][0] == UNAVAIL and any(
-                        c['ops'][j]['bucket'] == o['bucket'] and mouts[i][j][4][0] in (UNAVAIL, GLITCH, AUTH)
+                        c['ops'][j]['bucket'] == o['bucket'] and c['ops'][j].get('store', 0) == o.get('store', 0)
+                        and mouts[i][j][4][0] in (UNAVAIL, GLITCH, AUTH)
                         and c['ops'][j]['fs'][-1:] == [[0, 404]] for j in range(k)):
                     ctx.count('session_repeated_404_in_unverified_bucket')
                 if mouts[i][k][5] and o['fs'][-1:] == [[0, 404]]:
@@ -1715,6 +1941,14 @@ def run_cases(ctx, cases):
             ctx.count('kind=site')
             ctx.count('site=%s;answer=%s' % (c['site'], 'empty' if c.get('empty', True) else 'body'))
             ctx.count('site_len=%d' % len(c['fs']))
+            if c.get('_auto') is not None:
+                ctx.count('unstreamed_with_body')
+                if c['_auto'][1] != c['_auto'][2]:
+                    ctx.count('unstreamed_adapter_retries_forgotten_visible')
+                if c['_auto'][0] != c['_auto'][1]:
+                    ctx.disagree('kind=site;what=extracted_model_differs_from_extracted_automaton', c, None, None,
+                                 'wire 96: request cfg PListing differs from spec_unstreamed (theorem C09_unstreamed_request)',
+                                 kind='tie')
             continue
         nontrivial = bool(c.get('fs')) or c['kind'] == 'token'
         ctx.note_case(canon(c), nontrivial=nontrivial,
@@ -1750,7 +1984,7 @@ def run(ctx):
             _state['stale'] = True
     env()
     _state['left_out'] = left_out_wires()
-    if _state['left_out'] & {'9', '91', '92', '93', '94', '95'}:
+    if _state['left_out'] & {'9', '91', '92', '93', '94', '95', '96', '97'}:
         _state['stale'] = True
     # known-finding witnesses first (fixed ones must pass, open ones must still fail)
     for f in ctx.findings:
@@ -1768,6 +2002,10 @@ def run(ctx):
     if ctx.model_ok and not _state.get('stale'):
         _state['expected_paths'] = expected_paths(ctx)
     walls = ctx.extra.setdefault('wall_s_by_case_family', {})
+    nworkers = int(os.environ.get('VERIF_C09_WORKERS', '4'))
+    if nworkers > 0:
+        _state['workers'] = _Workers(nworkers)
+        ctx.extra['worker_processes'] = nworkers
     for name, gen in (('url', url_cases), ('token', token_cases), ('tokhist', hist_cases), ('site', site_cases),
                       ('session', session_cases), ('chunk+rdb', gen_cases), ('budget', budget_cases)):
         t0 = time.time()
@@ -1793,7 +2031,11 @@ def run(ctx):
             ctx.disagree('what=extraction_vs_vm_compute', dict(kind='extraction'), None, None,
                          'extracted model differs from vm_compute', kind='tie')
         ctx.extra['extraction_crosscheck_cases'] = len(sample)
-    ctx.extra['backoff_sleeps_skipped'] = len(_state['nosleep'].slept)
+    slept_in_workers = 0
+    if _state.get('workers') is not None:
+        _state['workers'].close()
+        slept_in_workers = _state['workers'].slept
+    ctx.extra['backoff_sleeps_skipped'] = len(_state['nosleep'].slept) + slept_in_workers
     _state['fake'].close()
     remove_library_hooks()
     _state.clear()
@@ -1805,7 +2047,7 @@ def replay(ctx, doc):
     if not case or 'kind' not in case:
         return
     _state['left_out'] = left_out_wires()
-    if _state['left_out'] & {'9', '91', '92', '93', '94', '95'}:
+    if _state['left_out'] & {'9', '91', '92', '93', '94', '95', '96', '97'}:
         _state['stale'] = True
     if ctx.model_ok and not _state.get('stale'):
         env()
